@@ -99,6 +99,7 @@ def rle_spans(tokens):
 
 
 # ---------------------------------------------------------------------- gamma
+_MEMK = 0
 _MEM = 0   # 1: the same values handed over in another memory layout (set per gamma call from the style)
 
 
@@ -106,6 +107,12 @@ def _mem(a):
     """the same array content in Fortran order (rank >= 2) or as a strided view (rank 1)"""
     if _MEM == 0 or a.size == 0:
         return a
+    global _MEMK
+    _MEMK += 1
+    if _MEMK % 3 == 1 and a.dtype.kind == "f":
+        return a.astype(a.dtype.newbyteorder(">"))      # same values, big-endian storage
+    if _MEMK % 3 == 2 and a.dtype == np.dtype("<f4"):
+        return a.astype("<f8")                          # same values, wider type
     if a.ndim >= 2:
         return np.asfortranarray(a)
     big = np.full(a.size * 2, 99, dtype=a.dtype)
